@@ -847,7 +847,7 @@ def g_repeat(g):
         return None
     v = g.val(x)
     ax = _axis(rng, v.ndim, allow_none=rng.random() < 0.5, allow_tuple=False, allow_neg=True)
-    return g.add("repeat", "repeat", [x], {"repeats": rng.choice([1, 2, 2, 3, 3, 4, 5]), "axis": ax})
+    return g.add("repeat", "repeat", [x], {"repeats": rng.choice([0, 1, 2, 2, 2, 3, 3, 4, 5]), "axis": ax})
 
 
 def g_tile(g):
